@@ -29,6 +29,7 @@ func init() {
 			{ID: "C03.3", Doc: "stalled armed only when nothing is in flight and nothing qualifies", Floor: 2, Run: c03r3},
 			{ID: "C03.4", Doc: "Stop completes", Floor: 5, Run: c03r4},
 			{ID: "C03.5", Doc: "who may be left unqueried at stall", Floor: 4, Run: c03r5},
+			{ID: "C03.7", Doc: "the frontier's order is total on distinct contacts, so no learned contact is dropped as a duplicate of another (shared with C18.3)", Floor: 4, Run: c18r3},
 			{ID: "C03.6", Doc: "no address is queried twice (finiteness of the query sequence; shared with C04.3)", Floor: 3, Run: c04r3},
 		},
 	})
@@ -579,7 +580,9 @@ func c03r5(w *World, rr *RuleRun) {
 	}
 	farDist := func(x *Term) bool { // Distance(Int160(Farthest(closest).ID), target)
 		return x.Op == OpCall && suffixName(x) == "Distance" && len(x.Args) == 2 && hasFieldAnywhere(x.Args[1], target) &&
-			anySub(x.Args[0], func(y *Term) bool { return isCall(y, t.farthest) && len(y.Args) == 1 && isFieldTerm(y.Args[0], t.closest) })
+			anySub(x.Args[0], func(y *Term) bool {
+				return isCall(y, t.farthest) && len(y.Args) == 1 && isFieldTerm(y.Args[0], t.closest)
+			})
 	}
 	farther := func(alt *Alt) bool { // 0 < Cmp(candDist, farDist)  or  Cmp(farDist, candDist) < 0
 		return alt.Has("b", true, func(x *Term) bool {
@@ -599,7 +602,9 @@ func c03r5(w *World, rr *RuleRun) {
 			return false
 		})
 	}
-	full := func(alt *Alt) bool { return alt.Has("b", true, func(x *Term) bool { return isCall(x, t.full) && len(x.Args) == 1 && isFieldTerm(x.Args[0], t.closest) }) }
+	full := func(alt *Alt) bool {
+		return alt.Has("b", true, func(x *Term) bool { return isCall(x, t.full) && len(x.Args) == 1 && isFieldTerm(x.Args[0], t.closest) })
+	}
 	noID := func(alt *Alt) bool {
 		return alt.Has("b", false, func(x *Term) bool {
 			return x.Op == OpField && x.Name == "Ok" && isFieldTerm(x.Args[0], idF) && anySub(x, isCand)
